@@ -92,7 +92,7 @@ FORMS = [
     ("button", "Z = BUTTON( {0} )"), ("button_e", "Z = BUTTON( {0} ) + 1"), ("point", "Z = POINT( {0} , {1} )"), ("point_e", "Z = POINT( {0} , {1} ) * 2"), ("joystk", "Z = JOYSTK( {0} ) + 1"),
     ("inkey", "Z$ = INKEY$"), ("inkey_e", 'Z$ = INKEY$ + "!"'),
 ]
-SHAPES = ["lit", "var", "elem", "sum", "conv", "hex"]
+SHAPES = ["lit", "var", "elem", "sum", "conv", "hex", "neg", "not"]
 HEXLITS = ["&H8000", "&H7FFF", "&HFFFF", "&H8001", "&H1F", "&HFF", "&H0"]
 SSHAPES = [("lit", '"TXT"'), ("var", "S$"), ("cat", 'S$ + "!"')]
 
@@ -109,6 +109,10 @@ def operand(shape, i):
         return f"P{i} + 1", [f"P{i}={val - 1}"]
     if shape == "hex":
         return HEXLITS[i % len(HEXLITS)], []
+    if shape == "neg":  # an operand that begins with a unary operator (an operator node, not an expression node, in the tool's tree)
+        return f"- N{i}", [f"N{i}={-val}"]
+    if shape == "not":
+        return f"NOT N{i}", [f"N{i}={-val - 1}"]
     return f"INT( Q{i} )", [f"Q{i}={val}.5"]
 
 
